@@ -22,10 +22,11 @@ import (
 )
 
 var vhOpenFS billy.Filesystem
+var vhOpenBase string
 
 func vhPlainOpen(path string) (*gogit.Repository, error) { return nil, nil }
 
-func vhOsfsNew(base string) billy.Filesystem { return vhOpenFS }
+func vhOsfsNew(base string) billy.Filesystem { vhOpenBase = base; return vhOpenFS }
 
 func detectGitPath(path string, depth int) (string, error) { return path, nil }
 
@@ -97,6 +98,8 @@ func VH_C05_open() {
 	if err != nil || repo == nil {
 		return
 	}
+	// C15: git-bug's files live under <git dir>/git-bug and nowhere else
+	rt.Assert(vhOpenBase == "/host/git-bug", "local-storage-rooted-at-git-dir-namespace")
 	for i := 0; i < L; i++ {
 		needs := clocks[i][0].state != 1 || clocks[i][1].state != 1
 		if needs {
